@@ -538,7 +538,7 @@ func (w *Wallet) Receive(token cashu.Token, swapToTrusted bool) (uint64, error) 
 	}
 
 	// verify DLEQ in proofs if present
-	if !nut12.VerifyProofsDLEQ(proofsToSwap, *keyset) {
+	if !verifyProofsDLEQ(proofsToSwap, tokenMint, keyset) {
 		return 0, errors.New("invalid DLEQ proof")
 	}
 
@@ -629,7 +629,7 @@ func (w *Wallet) ReceiveHTLC(token cashu.Token, preimage string) (uint64, error)
 		return 0, fmt.Errorf("could not get active keyset: %v", err)
 	}
 	// verify DLEQ in proofs if present
-	if !nut12.VerifyProofsDLEQ(proofs, *keyset) {
+	if !verifyProofsDLEQ(proofs, tokenMint, keyset) {
 		return 0, errors.New("invalid DLEQ proof")
 	}
 
@@ -682,6 +682,36 @@ func (w *Wallet) ReceiveHTLC(token cashu.Token, preimage string) (uint64, error)
 	}
 
 	return 0, errors.New("ecash does not have an HTLC spending condition")
+}
+
+// verifyProofsDLEQ verifies the DLEQ proofs (if present) against the public keys of the
+// keyset of each proof. Proofs could be from a keyset that is not the active one anymore.
+func verifyProofsDLEQ(proofs cashu.Proofs, mintURL string, activeKeyset *crypto.WalletKeyset) bool {
+	keysets := map[string]crypto.PublicKeys{activeKeyset.Id: activeKeyset.PublicKeys}
+	for _, proof := range proofs {
+		if proof.DLEQ == nil {
+			continue
+		}
+
+		publicKeys, ok := keysets[proof.Id]
+		if !ok {
+			keys, err := GetKeysetKeys(mintURL, proof.Id)
+			if err != nil {
+				return false
+			}
+			publicKeys = keys
+			keysets[proof.Id] = keys
+		}
+
+		pubkey, ok := publicKeys[proof.Amount]
+		if !ok {
+			return false
+		}
+		if !nut12.VerifyProofDLEQ(proof, pubkey) {
+			return false
+		}
+	}
+	return true
 }
 
 type swapRequestPayload struct {
